@@ -9,7 +9,9 @@
 (*    file reports), probes : [c, ok, v] (LookupCID / Lookup), all : [c, v] *)
 (*    (All, in order), mapping : [c, v] (GetMapping / All collected)]       *)
 (* kind is "cid", "tu" (values are rune sequences), "rect-cid", "rect-tu",   *)
-(* "wide-cid".                                                              *)
+(* "wide-cid", "frame-cid" (a predefined CMap before and after a Clone got a *)
+(* new mapping).  Records of kind "cid" / "rect-cid" may have been taken     *)
+(* after such a clone step (clonestep): the reference is the same.          *)
 (* Only Ref... operators (and the closed form of the lexicographic rank,    *)
 (* proved equal to LexRank in MC_CMap) are used for acceptance.             *)
 EXTENDS CMap, TraceLib
@@ -94,7 +96,16 @@ WideCaseOK(c) ==
      /\ Cardinality({L[i].c : i \in 1..Len(L)}) = Len(L)
      /\ \A i \in 1..Len(L) : L[i].v = MeaningCID(f, L[i].c)
 
+\* frame condition (kind "frame-cid"): Clone copies a File, so SetMapping on the clone leaves
+\* the original's answers (mapping: lookups before, probes: after) and enumeration (all2
+\* before, all after) as they were
+FrameCaseOK(c) == /\ c.err = ""
+                  /\ Len(c.probes) = Len(c.mapping)
+                  /\ \A i \in 1..Len(c.probes) : c.probes[i].c = c.mapping[i].c /\ c.probes[i].v = c.mapping[i].v
+                  /\ c.all = c.all2
+
 CaseOK(c) == IF c.kind \in {"cid", "tu"} THEN MapCaseOK(c)
+             ELSE IF c.kind = "frame-cid" THEN FrameCaseOK(c)
              ELSE IF c.kind = "wide-cid" THEN WideCaseOK(c) ELSE RectCaseOK(c)
 
 VARIABLES i, bad, done
